@@ -254,8 +254,30 @@ BODIES = ["", "# Title\n\ntext {{ a }} {{ k }}\n", "[link](http://e.org) [w](x:y
           "{{ b }}\n", "text\n"]
 
 
+FM_LINES += [
+    "a: {2020-01-01: x}", "a: {1: 2, null: 3, true: 4, 1.5: 5}", "a: [{2020-01-01 10:00:00: x}]", "a: {? [1, 2] : x}",
+    "a: {b: {2020-01-01: {c: !!binary aGk=}}}", "2020-01-01: x", "null: x", "1.5: x", "a: !!timestamp 2020-13-45",
+    "author: {2020-01-01: x}", "date: {1: 2}", "a: 123456789012345678901234567890", "a: -.inf", "a: .nan",
+]
+MYST_LINES = [ln for ln in FM_LINES if ln.startswith("  ")]
+TOP_LINES = [ln for ln in FM_LINES if not ln.startswith("  ") and ln != "myst:"]
+BODIES_X = [
+    "[link](http://e.org) [w](x:y) <wiki:z> <x:a/b#c> [t](wiki://[x) <http://[x> [u](x://[)\n",
+    "# A\n\n## B\n\n### C\n\n[](#b) [^n] ~~s~~ $m$ {{ a }} {{ b }}\n\n[^n]: note\n\n```python\nx\n```\n\n:::{note}\nx\n:::\n",
+    "www.e.org and - [ ] task\n\nTerm\n: def\n\n:field: v\n\n<img src=\"a.png\">\n\n<div class=\"admonition\">x</div>\n",
+]
+
+
 @st.composite
 def front_case(draw):
+    if draw(st.integers(0, 2)):
+        # structured: a well-formed 'myst:' block whose entries are drawn from every field spelling, plus other keys
+        top = draw(st.lists(st.sampled_from(TOP_LINES), max_size=3))
+        myst = draw(st.lists(st.sampled_from(MYST_LINES), min_size=1, max_size=5))
+        pos = draw(st.integers(0, len(top)))
+        lines = top[:pos] + ["myst:"] + myst + top[pos:]
+        text = "---\n" + "\n".join(lines) + "\n---\n\n" + draw(st.sampled_from(BODIES + BODIES_X + BODIES_X))
+        return {"gen": "front", "text": text, "cfg": draw(st.one_of(st.just({}), cfg_st))}
     lines = draw(st.lists(st.sampled_from(FM_LINES), min_size=0, max_size=6))
     closer = draw(st.sampled_from(["---", "---", "...", "----", ""]))
     text = "---\n" + "\n".join(lines) + ("\n" if lines else "") + (closer + "\n" if closer else "") + "\n" + draw(
@@ -329,7 +351,8 @@ def hostile_case(draw):
             "../" * 50 + "x.md", "/", "//", ".", "..", "~", "C:\\x", "file:///etc/passwd", "a b.md", "é.md", "\U0001f600.md",
             "#", "##", "#a#b", "?q", "f.md?q#a", "x:", ":x", "://", "inv:", "inv:#", "inv:k", "inv:k:d:t:e#x", "inv:*#*",
             "inv:#\\*", "project:", "project:#", "path:", "path:/", "project:" + "a" * 300, "mailto:", "http:", "javascript:x",
-            "<", ">", "a\tb", "\ufeff", "a\u2028b"]))
+            "<", ">", "a\tb", "\ufeff", "a\u2028b", "inv://[x", "inv://[x#y", "wiki://[x", "x://[y", "http://[x", "http://[::1]:99999/",
+            "inv:k:[#x", "project://[x", "path://[x", "x://a]b", "wiki://a:b:c/d", "inv:#%", "inv:%zz#x", "x:%", "http://a:b/"]))
         form = draw(st.sampled_from(["[t]({d})", "[]({d})", "[t](<{d}>)", "<{d}>", "![a]({d})", "[t]: {d}\n\n[t]",
                                      "```{{image}} {d}\n```", "```{{figure}} {d}\n```", "```{{include}} {d}\n```",
                                      "```{{literalinclude}} {d}\n```", "```{{download}} {d}\n```"]))
@@ -382,6 +405,8 @@ def hostile_case(draw):
             "[s]{.c}", "[s]{", "{}", "{.}", "{#}", "{k=}", "{=v}", "\\begin{equation}\nx\n\\end{equation}", "\\begin{nosuch}\n\\end{nosuch}",
             "$x", "$ x $", "1$x$2", "$$", "$$ $$", "$$\nx", "+++", "+++ meta *x*", "% comment", "%", "- [ ]", "- [x] t", "- [ ]\n  - [x] n",
             "~~s~~", "~~~\ncode", "--", "...", "(c) (tm) +-", "'q' \"q\"", "www.e.org http://e.org e@e.org",
+            "[^\u00b2]", "[^\u00b2]: two", "[^\u0661]", "[^\u0661]: one", "[^\u2460]: c", "[^\u2460]", "[^01]: x", "[^01]", "[^-1]: x", "[^1.5]: y",
+            "[^A]: u", "[^a ]: v", "[^10]: ten", "[^10]", "[^a]: a\n\n    [^n]: nested", "> [^q]: in quote", "[^q]",
         ]), min_size=1, max_size=6))
         text = "\n\n".join(parts) + "\n"
         ext |= set(mdgen.ALL_EXTENSIONS)
